@@ -20,6 +20,9 @@
 //     field announces) is reported with OracleFailKnown, anything else --
 //     including every failure class that was a finding before the repairs
 //     a533fa8..9c860bb -- with OracleFail.
+//   - replay.go: tpmeventlog.Replay on the product of event-log shapes x PCR
+//     index x hash algorithm x optional log writer (nil / a writer / a writer
+//     whose Write fails); `CReplay` cases, model = Model.DecodersExt.replay_out.
 //   - ext.go: the repo-owned logic around third-party parsers (PEM block loops,
 //     GetRegion / CalcImageOffset) compared with its model on the third-party
 //     results; distribution of the inputs and coverage of the comparisons.
@@ -847,7 +850,10 @@ func txtSpaces() (tools4k []byte, regs64k []byte) {
 }
 
 // minimal TCG event log (SHA1 format header + crypto-agile events)
-func synthEventLog() []byte {
+func synthEventLog() []byte { return synthEventLogWith(true) }
+
+// withLocality = false: the log has no StartupLocality EV_NO_ACTION event (the PCR0 replay then starts from zeros)
+func synthEventLogWith(withLocality bool) []byte {
 	var b bytes.Buffer
 	w := func(v interface{}) { _ = binary.Write(&b, binary.LittleEndian, v) }
 	// TCG_PCClientPCREvent: Spec ID Event03
@@ -868,7 +874,9 @@ func synthEventLog() []byte {
 		w(uint32(len(data)))
 		b.Write(data)
 	}
-	ev(0, 3, []byte("StartupLocality\x00\x03"))
+	if withLocality {
+		ev(0, 3, []byte("StartupLocality\x00\x03"))
+	}
 	ev(0, 1, cat(le64(0x1000), le64(0xFFFFF000)))
 	ev(0, 0x8000000A, cat([]byte{40}, []byte("Fv(01234567-89AB-CDEF-0123-456789ABCDEF)"), le64(0x100), le64(0xFFFF0000)))
 	ev(7, 0x80000001, []byte("variable"))
@@ -1541,6 +1549,9 @@ func main() {
 		h.run("tpmeventlog.Parse/random", dEventLog, nil, h.rbytes(h.randomLen(q(2000, 65536))), nil, "random")
 	}
 
+	// ---- 22. tpmeventlog.Replay: log shapes x PCR index x algorithm x optional writer (replay.go)
+	h.replayCases(q)
+
 	h.finishStats()
 	c.Rep.Extra["outcome_classes"] = h.classes
 	c.Rep.Extra["known_finding_hits"] = h.known
@@ -1554,6 +1565,7 @@ func main() {
 	c.Rep.Notes = append(c.Rep.Notes,
 		"decoders 1..20 are modelled (Coq case per call up to "+fmt.Sprint(h.maxModelLen)+" input bytes); tools.ParseACM, UnmarshalYAML, registers.New, tpmeventlog.Parse and the third-party parsers behind them (fiano, go-attestation, yaml, json, pem/x509, aes-gcm) are fuzzed with the oracle only",
 		"the repo-owned logic around third-party parsers is compared with its model on what the third-party call returned: CPem = the PEM block loops of parsePrivateKey / ReadPubKey over the pem.Decode calls and x509 verdicts observed on the same bytes (each call is also checked against the contract 'strictly shorter rest'); CRegion / CCalc = GetRegion / CalcImageOffset over the fiano probes (descriptor record, fmap area, BIOS region)",
+		"CReplay = tpmeventlog.Replay(log, pcrIndex, hashAlgo, logOut): log shapes (first event selected for the PCR and bank: none / StartupLocality / a measurement / an EV_NO_ACTION event without locality / an init event after a measurement / two init events; 0, 1 or several measurements; events of other PCRs, other banks and without digest in between; one digest of the wrong length) x PCR index (0, 1, unsupported) x algorithm (SHA1, SHA256, SHA384, SHA512, SHA3-256, unknown) x logOut (nil = the writer is optional, a writer, a writer whose Write fails), and binary logs (with and without the StartupLocality event, bit flips, length fields) through tpmeventlog.Parse; the SHA digests of the chain are computed by the harness and handed to the model as a table",
 		"extra.decoder_input_distribution: per decoder the sizes of the generated inputs, the outcome classes and the kinds of errors; extra.condition_coverage: every comparison the decoders make on their input, evaluated on the generated inputs (times true / false); extra.constant_conditions must be empty",
 		"all calls of a run go through one child process (restarted only after a crash or a time-out): the decoders see each other's leftovers, if there were any (the result-origin tie shows there is no package-level state to leave)",
 		"each call runs in a child process with RLIMIT_AS = 4 GiB and a 2 s deadline (the first time-out of a decoder is confirmed with a 20 s deadline before it counts); allocation = runtime.MemStats.TotalAlloc delta around the call")
@@ -1562,5 +1574,5 @@ func main() {
 		"their truncations (every length or a stride plus field boundaries), single bit flips, 16/32-bit little-endian length-field overwrites " +
 		"(0, 1, 0xFFFF, 0xFFFFFFFF, len-1, len, len+1, ...), 16/32/64-bit fields (every count field of the ACM info tables and of the LCP lists and elements, and random offsets) " +
 		"at the wrap-around points of 8/16/32/64-bit products and casts (ceil(k*2^W/size)+d for entry sizes 1..72, the value below, the last multiple that fits the field, 2^(W-1), 2^W-1, 2^W, 2^W+1), " +
-		"crafted hostile counts and random strings; CPem: the loop leaves where the code left (key / blocks ran out / x509 error) on every key file of the run; CRegion/CCalc: same offset, size, image offset and error; non-trivial = non-empty input; distinct = distinct Gallina literal")
+		"crafted hostile counts and random strings; CReplay: same value / error / panic as Model.DecodersExt.replay_out for every writer; CPem: the loop leaves where the code left (key / blocks ran out / x509 error) on every key file of the run; CRegion/CCalc: same offset, size, image offset and error; non-trivial = non-empty input; distinct = distinct Gallina literal")
 }
